@@ -30,9 +30,9 @@ func newFunctionStorer(rng *rng.RNG) *functionStorer {
 	}
 
 	for functionID, f := range map[string]any{
-		"dice":         dice(rng),
+		"dice":         checkedDice(rng),
 		"random":       random(rng),
-		"random_range": randomRange(rng),
+		"random_range": checkedRandomRange(rng),
 		"round":        round,
 		"round_places": roundPlaces,
 		"floor":        floor,
